@@ -16,6 +16,39 @@
     }
     fn tz() -> TimeOffset { TimeOffset { name: String::new(), offset: 0 } }
 
+    // C11: converting to another zone keeps the instant and only replaces the display zone
+    fn slice_convert_tz(fields: &Fields, offset: TimeOffset) -> core::result::Result<TokenType, String> {
+        return /*@SLICE convert_timezone.result*/;
+    }
+    #[kani::proof]
+    fn convert_timezone_keeps_the_instant() {
+        // the instant is passed through untouched, so its value range is irrelevant to the clause:
+        // any second of 2020-01-01 .. 2020-01-12
+        let n: u32 = kani::any();
+        kani::assume(n < 1_000_000);
+        let dt = NaiveDate::from_ymd_opt(2020, 1, 1).unwrap().and_hms_opt(0, 0, 0).unwrap() + chrono::Duration::seconds(n as i64);
+        let old = TimeOffset { name: String::new(), offset: kani::any() };
+        let new_off: i32 = kani::any();
+        let new = TimeOffset { name: String::new(), offset: new_off };
+        let which: u8 = kani::any();
+        kani::assume(which < 4);
+        let f = match which {
+            0 => Fields { time: Some((dt, old.clone())), date: None, date_time: None },
+            1 => Fields { time: None, date: Some((dt.date(), old.clone())), date_time: None },
+            2 => Fields { time: None, date: None, date_time: Some((dt, old.clone())) },
+            _ => Fields { time: None, date: None, date_time: None },
+        };
+        let r = slice_convert_tz(&f, new);
+        match (which, &r) {
+            (0, Ok(TokenType::Time(t, o))) => { assert!(*t == dt, "OBL:time_instant_is_unchanged"); assert!(o.offset == new_off, "OBL:time_gets_the_target_zone"); }
+            (1, Ok(TokenType::Date(d, o))) => { assert!(*d == dt.date(), "OBL:date_is_unchanged"); assert!(o.offset == new_off, "OBL:date_gets_the_target_zone"); }
+            (2, Ok(TokenType::DateTime(t, o))) => { assert!(*t == dt, "OBL:datetime_instant_is_unchanged"); assert!(o.offset == new_off, "OBL:datetime_gets_the_target_zone"); }
+            (3, Err(_)) => {}
+            _ => { assert!(false, "OBL:result_kind_matches_operand_kind"); }
+        }
+        core::mem::forget(r); core::mem::forget(f);
+    }
+
     // C14: 'N to date' is the instant N seconds after the epoch; '<date-time> as unix' is the seconds
     // to that instant; the two are mutually inverse (all timestamps of years 1..9999, negative included)
     #[kani::proof]
